@@ -27,6 +27,11 @@ class AsyncioProxy:
         return getattr(asyncio, name)
 
     async def sleep(self, delay, *a, **k):
+        if not delay or delay <= 0:
+            # a bare yield (`sleep(0)`) is not the cleanup delay: pass it through untouched, otherwise the gate
+            # would hold back a waiting connection and manufacture an overtaking the real server cannot produce
+            await asyncio.sleep(0)
+            return
         self.sleeps += 1
         if self.gate is not None:
             await self.gate.wait(delay)
